@@ -374,6 +374,7 @@ func runC10Interop(sc *IopScript) *sim.Outcome {
 			}
 			m.Settle(onA, onR)
 			old := m.A.C.GetSSID()
+			completions := m.R.Completions
 			sim.Age(m.A.C, 3*60e9)
 			if op.X&2 != 0 {
 				ok, noise := m.EstablishNoisy(op.X & 1)
@@ -383,6 +384,10 @@ func runC10Interop(sc *IopScript) *sim.Outcome {
 				o.Class("refresh-behind-damaged-copies")
 			} else if !m.Establish(op.X & 1) {
 				return o.Fail("C10/interop-ake", "a key exchange inside a running session did not complete (started by %d)", op.X&1)
+			}
+			if m.R.Completions != completions+1 || m.A.C.GetSSID() == old {
+				// (both sides were encrypted before: only a new session shows that this exchange was completed)
+				return o.Fail("C10/interop-ake", "a key exchange inside a running session (started by %d, damaged copies first: %v) left the old session in place: the reference completed %d exchange(s), otr3 reports SSID %x as before", op.X&1, op.X&2 != 0, m.R.Completions-completions, old)
 			}
 			if got := m.A.C.GetSSID(); got != m.R.SSID {
 				return o.Fail("C10/interop-ssid", "after a key exchange inside a running session otr3 reports SSID %x, the reference derives %x (before the exchange: %x)", got, m.R.SSID, old)
